@@ -5,6 +5,7 @@ import bibtexparser
 from bibtexparser.middlewares import RemoveEnclosingMiddleware
 from bibtexparser.model import DuplicateBlockKeyBlock, Entry, String
 
+from .. import leak
 from ..canon import canon
 
 ID = "C11"
@@ -43,7 +44,7 @@ def bounds(tier):
 
 
 def shards(tier):
-    return [("first", i) for i in range(len(CAT))]
+    return [("first", i) for i in range(len(CAT))] + [("leak", 0)]
 
 
 def strip1(v):
@@ -125,6 +126,15 @@ def check_doc(ids, acc, case=None):
 
 
 def run_shard(shard, tier, acc):
+    if shard[0] == "leak":
+        from bibtexparser.middlewares import ResolveStringReferencesMiddleware
+        from bibtexparser.splitter import Splitter
+
+        docs = ["\n".join(text_of(CAT[i]) for i in ids) for n in (1, 2, 3) for ids in itertools.product(range(len(CAT)), repeat=n)]
+        inputs = [(lambda d=d: Splitter(d).split()) for d in docs]
+        for ip in (True, False):
+            leak.run(lambda: ResolveStringReferencesMiddleware(allow_inplace_modification=ip), inputs, acc, f"ResolveStringReferences({ip})", case_of=lambda i: docs[i])
+        return
     maxb = 4 if tier == "quick" else 5
     i = shard[1]
     for n in range(1, maxb + 1):
